@@ -424,3 +424,58 @@ package zygo
 // The two places that can reach the world do so only in a non-sandboxed interpreter.
 //@ effects C08 guarded (*Generator).GenerateInclude unless gen.env.sandboxed
 //@ effects C08 guarded (*Zlisp).ImportPackageBuilder unless env.sandboxed
+
+// ===========================================================================
+// C05  a failed evaluation restores the interpreter (control state)
+// ===========================================================================
+// Control state = (curfunc, pc, scope-stack identity, sizes of the three stacks).
+// Every VM re-entry point captures it before it starts inner evaluation and
+// must have put it back on EVERY error exit after that point; inner evaluation
+// is abstracted (the whole heap is havocked), so these proofs depend only on
+// the restore being on every error path.
+//@ stable C05 Zlisp | datastack, addrstack | NewZlispWithFuncs, (*Zlisp).Clone, (*Zlisp).Duplicate
+//@ macro distinctStacks(e *Zlisp) bool = e == nil || (e.datastack != e.addrstack && e.datastack != e.linearstack && e.addrstack != e.linearstack)
+//@ typeinv C05 Zlisp | datastack, addrstack, linearstack | NewZlispWithFuncs, (*Zlisp).Clone, (*Zlisp).Duplicate, (*Zlisp).restoreControlState, (*SexpLazyArg).Force | distinctStacks(self)
+
+//@ macro ctlIs(env *Zlisp, st vmControlState) bool = env.curfunc == st.curfunc && env.pc == st.pc && env.linearstack == st.linearstack
+//@ |  && env.addrstack.tos == st.addrstackSize - 1 && env.linearstack.tos == st.linearstackSize - 1 && env.datastack.tos == st.datastackSize - 1
+
+//@ func (*Zlisp).captureControlState
+//@ C05 pure
+//@ C05 ensures ctlIs(env, r0) && r0.addrstackSize >= 0 && r0.linearstackSize >= 0 && r0.datastackSize >= 0
+
+//@ func (*Zlisp).restoreControlState
+//@ requires typeinv distinctStacks(env)
+//@ requires state.linearstack != env.datastack && state.linearstack != env.addrstack && state.linearstack != nil
+//@ requires state.addrstackSize >= 0 && state.linearstackSize >= 0 && state.datastackSize >= 0
+//@ C05 ensures ctlIs(env, state) && distinctStacks(env)
+//@ C05 modifies env.linearstack, env.curfunc, env.pc, env.addrstack.tos, env.addrstack.elements, elems(env.addrstack.elements), env.datastack.tos, env.datastack.elements, elems(env.datastack.elements), state.linearstack.tos, state.linearstack.elements, elems(state.linearstack.elements)
+
+//@ func (*Zlisp).Run
+//@ ghost st := ret0 @after call captureControlState[0]
+//@ C05 ensures on-error: r1 != nil ==> env.curfunc == st.curfunc && env.linearstack == st.linearstack && env.addrstack.tos == st.addrstackSize - 1 && env.linearstack.tos == st.linearstackSize - 1 && env.datastack.tos == st.datastackSize - 1
+//@ C05 ensures parked: r1 != nil && !env.curfunc.user ==> env.pc == len(env.curfunc.fun)
+
+//@ func (*Zlisp).EvalCallExpression
+//@ ghost captured := false @entry
+//@ ghost captured := true @after call captureControlState[0]
+//@ ghost st := ret0 @after call captureControlState[0]
+//@ C05 ensures restored-after-capture: captured ==> ctlIs(env, st)
+
+//@ func (*SexpLazyArg).Force
+//@ ghost captured := false @entry
+//@ ghost captured := true @after call captureControlState[0]
+//@ ghost st := ret0 @after call captureControlState[0]
+//@ C05 ensures restored-after-capture: captured ==> ctlIs(env, st)
+
+//@ func (*Zlisp).CallUserFunction
+//@ ghost captured := false @entry
+//@ ghost captured := true @after call captureControlState[0]
+//@ ghost st := ret0 @after call captureControlState[0]
+//@ C05 ensures restored-on-error: captured && err != nil ==> ctlIs(env, st)
+
+//@ func (*Zlisp).Apply
+//@ ghost captured := false @entry
+//@ ghost captured := true @after call captureControlState[0]
+//@ ghost st := ret0 @after call captureControlState[0]
+//@ C05 ensures restored-on-error: captured && r1 != nil ==> ctlIs(env, st)
